@@ -27,7 +27,7 @@ func (c notifyCfg) String() string {
 
 func epNotify(c *RunCtx, cfg notifyCfg) *Result {
 	e := NewEnv(c.Prop)
-	n := cfg.Conc + cfg.Pre + cfg.Racing
+	n := cfg.Conc + cfg.Pre + 1 + cfg.Racing
 	k := NewKit(e, n)
 	out := RunBubble(c.T, func(bid string) {
 		s := NewSubject(cfg.WK, k.Work, cfg.Conc)
@@ -67,6 +67,25 @@ func epNotify(c *RunCtx, cfg notifyCfg) *Result {
 			k.Control(s.W, "PauseAndWait", 0)
 			call = func() { k.Control(s.W, "Resume", 0) }
 			barrier = "PauseAndWait"
+		case "resume-during-completion":
+			// conc jobs in flight under a plain Pause; they finish while Resume is called
+			for i := 0; i < cfg.Conc; i++ {
+				k.Recs[next].Gate = gate
+				add()
+			}
+			for i := 0; i < cfg.Pre+1; i++ {
+				add()
+			}
+			synctest.Wait()
+			k.Control(s.W, "Pause", 0)
+			call = func() {
+				var w2 sync.WaitGroup
+				w2.Add(2)
+				go func() { defer w2.Done(); close(gate) }()
+				go func() { defer w2.Done(); k.Control(s.W, "Resume", 0) }()
+				w2.Wait()
+			}
+			barrier = "Pause"
 		case "restart":
 			s.W.Stop()
 			for i := 0; i < cfg.Pre; i++ {
@@ -181,7 +200,7 @@ var notifyFuncs = []string{"Resume", "Restart", "TunePool", "start", "notifyToPu
 func notifyPrograms(c *RunCtx, nq, nt int) { notifyProgramsK(c, nq, nt, false) }
 
 func notifyProgramsK(c *RunCtx, nq, nt int, distOnly bool) {
-	modes := []string{"resume", "restart", "tune-up", "drain", "resume-after-wait"}
+	modes := []string{"resume", "restart", "tune-up", "drain", "resume-after-wait", "resume-during-completion"}
 	for v := 0; v < c.Q(nq, nt); v++ {
 		c.Program(fmt.Sprintf("wakeup/%d", v), func(p *Prog) {
 			r := p.Rng
